@@ -43,9 +43,9 @@ def tab_config(seed, tier):
 
 
 def tab_config_deep(seed):
-    """thorough tier only: two rejected forms per session, on one order."""
+    """thorough tier only: two rejected forms per session (eight catalogue forms, one of each overlap class), on one permuted order."""
     rng = random.Random(seed * 7 + 2)
-    return {"orders": tab_orders(rng, 1), "bads": list(range(1, NBADS + 1)), "maxbad": 2, "gaps": [0]}
+    return {"orders": tab_orders(rng, 2)[1:], "bads": [1, 4, 5, 8, 10, 12, 14, 15], "maxbad": 2, "gaps": [0]}
 
 
 def _karg(t):
